@@ -27,6 +27,9 @@ CANDIDATES = [
 INVALID_CANDIDATES = ["", "\x01", "?" * 120 + "\n" * 40, "\n\n\n\n\n\n\n\n\n\n\n\n\n\n\n\n\n\n\n\n\n\n\n\n\n\n\n\n\n\n\n\n\n\n\n\n\n" + "é" * 300]
 
 
+ALT = {}   # type -> every canonical valid candidate (alternative contents for concretisation)
+
+
 def discover(struct_types, tags):
     """struct_types: list of field struct type names; tags: {type: tag}. Returns (valid, invalid) dicts."""
     items, index = [], []
@@ -39,8 +42,13 @@ def discover(struct_types, tags):
             index.append((t, c, False))
     outs = replay_batch(items, "dev")
     valid, invalid, loose = {}, {}, {}
+    ALT.clear()
     for (t, c, is_valid_pool), o in zip(index, outs):
         if is_valid_pool:
+            if o.get("ok"):
+                tag = tags.get(t)
+                if tag is not None and o.get("swift") == ":%s:%s" % (tag, c):
+                    ALT.setdefault(t, []).append(c)
             if o.get("ok") and t not in valid:
                 tag = tags.get(t)
                 if tag is not None and o.get("swift") == ":%s:%s" % (tag, c):
